@@ -27,7 +27,7 @@ VARIABLES owner,    \* "pool" | "reader" | "switch" | "router" | "handler" | "li
           act
 vars == <<owner, releases, result, cls, act>>
 
-Stages == {"parse", "link-pre", "link-mid", "link-post", "sealed", "kx", "sched"}
+Stages == {"parse", "link-pre", "link-mid", "link-post", "sealed", "kx", "sched", "flood"}
 Kinds == [ parse |-> {"random", "truncated", "bit", "lengths", "tiers"},
            linkpre |-> {"len0to3", "len4to11", "len12to27", "lenbeyond", "lenmax", "garbage", "mutated"},
            linkmid |-> {"mutated2", "mutated3", "lengths", "garbage", "signed-fields", "paused-handshake"},
@@ -37,9 +37,13 @@ Kinds == [ parse |-> {"random", "truncated", "bit", "lengths", "tiers"},
                        "hopchain-truncated", "hopchain-deep", "hopchain-random", "hopchain-oversized", "traffic-short", "traffic-version",
                        "traffic-mismatch", "traffic-proto", "traffic-nokeys", "forward-unknown", "forward-ttl", "forward-noroute", "appendix-stray", "clone-sizes", "raw-oversized"},
            kx |-> {"cross-handshake"},
-           sched |-> {"pong-retry"} ]   \* responses that race the retry of their request (PingPong.tla)
+           sched |-> {"pong-retry"},    \* responses that race the retry of their request (PingPong.tla)
+           \* tens of thousands of well-formed frames of ONE authenticated peer that differ in a field the router keeps
+           \* state for (per source address, per identity, per connection): the tables behind the handlers grow past
+           \* any size an ordinary run reaches, the cleaners have their tick, the tables grow again
+           flood |-> {"loop-sources", "identity-sources", "traffic-ports"} ]
 KindsOf(s) == CASE s = "parse" -> Kinds.parse [] s = "link-pre" -> Kinds.linkpre [] s = "link-mid" -> Kinds.linkmid
-                [] s = "link-post" -> Kinds.linkpost [] s = "sealed" -> Kinds.sealed [] s = "sched" -> Kinds.sched [] OTHER -> Kinds.kx
+                [] s = "link-post" -> Kinds.linkpost [] s = "sealed" -> Kinds.sealed [] s = "sched" -> Kinds.sched [] s = "flood" -> Kinds.flood [] OTHER -> Kinds.kx
 
 Init ==
   /\ owner = "pool" /\ releases = 0 /\ result = "none"
@@ -60,7 +64,7 @@ ReaderDrops ==
   /\ act' = [name |-> "readerdrops"]
   /\ UNCHANGED cls
 ReaderPasses ==
-  /\ owner = "reader" /\ cls.stage \in {"sealed", "link-post", "parse"}
+  /\ owner = "reader" /\ cls.stage \in {"sealed", "link-post", "parse", "flood"}
   /\ owner' = "switch"
   /\ act' = [name |-> "readerpasses"]
   /\ UNCHANGED <<releases, result, cls>>
